@@ -65,11 +65,11 @@ type aRR struct {
 }
 
 type aR struct {
-	mode               byte
-	rcode              int
-	ad, aa, tc, ra, z  bool
-	an, ns, ex         []aRR
-	opt                aOpt
+	mode              byte
+	rcode             int
+	ad, aa, tc, ra, z bool
+	an, ns, ex        []aRR
+	opt               aOpt
 }
 
 // ---------------------------------------------------------------- format
